@@ -775,7 +775,8 @@ Proof.
 Qed.
 
 (* ------------------------------------------------------------------ *)
-(* witnesses (replayed on the implementation by corpus/C04) *)
+(* the three transitions that did not replay before the fixes c24eacb / fd806f7 / 8f26be3
+   (replayed on the implementation by corpus/C04) *)
 
 (* F1: edge 9 moves from source node 1 to source node 2 and keeps its atom attachment *)
 Definition w1_before : state :=
@@ -803,20 +804,23 @@ Definition w3_ops : list op :=
 Lemma w1_facts :
   wfb w1_before = true /\ wfb w1_after = true /\
   apply_ops [UpsertEdge 1 9 2 3 8] w1_before = Ok w1_after /\
-  diff w1_before w1_after = [DeleteEdge 1 1 9; UpsertEdge 1 9 2 3 8] /\
-  apply_ops (diff w1_before w1_after) w1_before = Ok w1_third /\ w1_third <> w1_after.
+  diff w1_before w1_after =
+    [DeleteEdge 1 1 9; UpsertEdge 1 9 2 3 8; SetAtt (edge_beta 1 9) (Some (Atom 5 [1;2]))] /\
+  apply_ops (diff w1_before w1_after) w1_before = Ok w1_after /\ w1_third <> w1_after.
 Proof. repeat split; try (vm_compute; reflexivity). discriminate. Qed.
 
 Lemma w2_facts :
   wfb w2_before = true /\ wfb w2_after = true /\
   apply_ops (patch_new w2_ops) w2_before = Ok w2_after /\
-  diff w2_before w2_after = [DeleteNode 1 3; UpsertEdge 1 9 1 2 8] /\
-  apply_ops (diff w2_before w2_after) w2_before = Err (NodeNotIsolated 1 3).
+  diff w2_before w2_after = [DeleteEdge 1 1 9; DeleteNode 1 3; UpsertEdge 1 9 1 2 8] /\
+  apply_ops (diff w2_before w2_after) w2_before = Ok w2_after.
 Proof. repeat split; vm_compute; reflexivity. Qed.
 
 Lemma w3_facts :
   wfb w3_before = true /\ wfb w3_after = true /\
   apply_ops (patch_new w3_ops) w3_before = Ok w3_after /\
-  diff w3_before w3_after = [OpenPortal (node_alpha 1 2) 4 5 (Some 6); UpsertNode 1 2 7] /\
-  apply_ops (diff w3_before w3_after) w3_before = Err (MissingNode 1 2).
+  diff w3_before w3_after =
+    [UpsertWI 4 5 (Some (node_alpha 1 2)); UpsertNode 1 2 7; UpsertNode 4 5 6;
+     SetAtt (node_alpha 1 2) (Some (Descend 4))] /\
+  apply_ops (diff w3_before w3_after) w3_before = Ok w3_after.
 Proof. repeat split; vm_compute; reflexivity. Qed.
